@@ -167,16 +167,27 @@ class World:
         self.log.append(dict(op="rename", name=p.name, to=n))
 
     def rename_over(self):
-        """replace an existing source by another (older) file: content changes, mtime goes back"""
+        """replace an existing source by another file (mv keeps the mtime): content changes; the arriving file may
+        be older than the steps ninja logged for that path"""
         srcs = self.sources()
         if len(srcs) < 2:
             return self.modify()
         a, b = self.rng.sample(srcs, 2)
-        older = a.stat().st_mtime_ns <= b.stat().st_mtime_ns
+        m = a.stat().st_mtime_ns
+        # F7 class: some logged step that reads b started no earlier than the arriving file's mtime
+        stale_prone = False
+        log = ninjafile.read_log(self.d / "build" / ".ninja_log")
+        try:
+            rules, edges = self.graph()
+        except Exception:
+            edges = []  # build.ninja may be torn by an earlier fault: fall back to the log alone
+        outs = {e["outs"][0] for e in edges if any(Path(i).name == b.name for i in e["ins"] + e["implicit"])}
+        outs |= {o for o in log if Path(o).stem == b.stem}  # per-source intermediates are named after the source
+        stale_prone = any(o in log and m <= log[o][0] for o in outs)
         os.rename(a, b)
-        if older:
+        if stale_prone:
             self.renamed_over.append(b.name)
-        self.log.append(dict(op="rename_over", name=a.name, to=b.name, older_mtime=older))
+        self.log.append(dict(op="rename_over", name=a.name, to=b.name, not_newer_than_logged_steps=stale_prone))
 
     def remove(self):
         srcs = self.sources()
